@@ -54,6 +54,7 @@ let plain_str g a fuel input =
 let () =
   iter_lines (fun line ->
     if String.length line < 2 || String.sub line 0 2 <> "G " then "SKIP" else
+    try
     let secs = split_sections line in
     let d = parse_dump line in
     let g = grammar_of d in
@@ -66,7 +67,14 @@ let () =
     let b = Buffer.create 256 in
     Buffer.add_string b (Printf.sprintf "V wf=%s S=%s single=%s nse=%s" (b2s (wf_grammar g)) (b2s (validS g a)) (b2s (single_candidate g a))
       (b2s (dump_no_shift_eof g.eof dd)));
-    List.iter (fun (c : icase) ->
+    List.iter (fun (c0 : icase) ->
+     try
+      (* model cap: the mirror replays at most [ecap] errors of one input (the implementation can report the
+         same error hundreds of thousands of times when a repair does not move it on) *)
+      let ecap = 300 in
+      let rec take n = function [] -> [] | x :: r -> if n <= 0 then [] else x :: take (n - 1) r in
+      let trunc = List.length c0.errs > ecap in
+      let c = if trunc then { c0 with errs = take ecap c0.errs } else c0 in
       let input = List.map n_of_int c.toks in
       let len = List.length c.toks in
       let ifuel = nat_of_int (400 + 20 * (len + 2) * (nprods + 2)) in
@@ -80,8 +88,50 @@ let () =
         | DStuck (SPanic, es) -> ("panic", None, es)
         | DStuck (SInnerFuel, es) -> ("ifuel", None, es)
         | DStuck (SOuterFuel, es) -> ("ofuel", None, es) in
+      (* when truncated the mirror's last error is the artefact of the exhausted oracle *)
+      let mes_shown = if trunc then take ecap mes else mes in
       let merrs = String.concat "," (List.map (fun e ->
-        Printf.sprintf "%d:%d:%s" (int_of_nat e.e_pos) (int_of_n e.e_state) (b2s e.e_repaired)) mes) in
+        Printf.sprintf "%d:%d:%s" (int_of_nat e.e_pos) (int_of_n e.e_state) (b2s e.e_repaired)) mes_shown) in
+      (* a parse that did not return: does the search's lr_cactus loop from the first error configuration?
+         (Insert of some token, or a Shift after deleting k lexemes, runs out of fuel) *)
+      let probe = if c.value <> "hang" && c.value <> "crash" then "" else
+        (match mes with
+         | e :: _ ->
+            (* bounded breadth-first walk over the search's moves (Insert t / Delete / Shift, see Repair/Search.v)
+               from the first error configuration: which move runs out of fuel? *)
+            let hit = ref "" in
+            let seen = Hashtbl.create 64 in
+            let frontier = ref [ (e.e_stk, int_of_nat e.e_pos, "") ] in
+            let depth = ref 0 in
+            while !hit = "" && !depth < 5 && !frontier <> [] do
+              incr depth;
+              let next = ref [] in
+              List.iter (fun (stk, p, path) ->
+                if !hit = "" then begin
+                  let try_adv tag tok leaf k =
+                    (match advance g a ifuel stk (n_of_int tok) leaf with
+                     | AFuel -> if !hit = "" then hit := path ^ tag
+                     | r -> k r) in
+                  let push stk' p' path' =
+                    let key = (List.map (fun (s, _) -> int_of_n s) stk', p') in
+                    if not (Hashtbl.mem seen key) && List.length !next < 400 then
+                      (Hashtbl.add seen key (); next := (stk', p', path') :: !next) in
+                  for t = 0 to int_of_n g.ntoks - 1 do
+                    if t <> int_of_n g.eof then
+                      try_adv (Printf.sprintf "I%d" t) t (VLeaf (n_of_int t, nat_of_int p, true))
+                        (function AShift s' -> push s' p (path ^ Printf.sprintf "I%d." t) | _ -> ())
+                  done;
+                  if p < len then push stk (p + 1) (path ^ "D.");
+                  let tk = if p < len then List.nth c.toks p else int_of_n g.eof in
+                  try_adv "S" tk (VLeaf (n_of_int tk, nat_of_int p, false))
+                    (function AShift s' -> push s' (p + 1) (path ^ "S.")
+                            | AError s' | AAccept s' -> push s' p (path ^ "s.")
+                            | _ -> ())
+                end) !frontier;
+              frontier := List.rev !next
+            done;
+            !hit
+         | [] -> "") in
       (* value comparison *)
       let mvs = match mval with Some t -> "acc " ^ str_of (pp_vtree g) t | None -> "none" in
       let vcmp = if mstat <> "done" then "na" else if mvs = c.value then "same" else "diff" in
@@ -130,7 +180,9 @@ let () =
         | Some t, Some v -> if str_of shape_t t = str_of shape_v v then "same" else "diff"
         | Some _, None -> "noval"
         | None, _ -> "na" in
-      Buffer.add_string b (Printf.sprintf " # J plain=%s mirror=%s merrs=%s vcmp=%s nseq=%d nskip=%d bad=%s rep=%s rshape=%s replen=%d"
-        pl mstat merrs vcmp !nseq !nskip (String.concat "," (List.rev !bad)) rp rshape (List.length rep_input));
-      if vcmp = "diff" then Buffer.add_string b (" # MV " ^ mvs)) (parse_inputs secs);
-    Buffer.contents b)
+      Buffer.add_string b (Printf.sprintf " # J plain=%s mirror=%s merrs=%s vcmp=%s nseq=%d nskip=%d trunc=%s probe=%s bad=%s rep=%s rshape=%s replen=%d"
+        pl mstat merrs vcmp !nseq !nskip (b2s trunc) probe (String.concat "," (List.rev !bad)) rp rshape (List.length rep_input));
+      if vcmp = "diff" then Buffer.add_string b (" # MV " ^ mvs)
+     with Stack_overflow -> Buffer.add_string b " # J mirror=overflow") (parse_inputs secs);
+    Buffer.contents b
+    with Stack_overflow -> "SKIP overflow")
